@@ -11,7 +11,8 @@ EXTENDS Naturals, Sequences, FiniteSets, TLC
 CONSTANTS Deviations
 VARIABLES scn,      \* [kind, extractor, prefix, statusmap, plan, methods : Seq([fn, ep, errs, tags, cpref, name, meta])]
                     \* plan: "same" = three generations for the same registry; "shrink" = the second generation (same specification
-                    \*       object) documents only the first method, the third all of them again
+                    \*       object) documents only the first method, the third all of them again; "grow" = the first generation precedes the
+\*       definition of the last method
                     \* meta: "full" = the method is annotated with its own summary, description, deprecated flag, example,
                     \*       servers, external docs (and security for OpenAPI); "schemas" = explicit params / result schemas
                     \* statusmap: "map" = OpenAPI(error_http_status_map={2001: 400}): that error gets a response entry of its own
@@ -20,11 +21,12 @@ VARIABLES scn,      \* [kind, extractor, prefix, statusmap, plan, methods : Seq(
 vars == <<scn, heap, docs>>
 
 \* facts about the function pool (mirrored by the driver): documented parameters and docstring `:raises:`
-ParamNames == [f1 |-> <<"a", "b">>, f2 |-> <<"items", "m">>, f3 |-> <<"flag", "opt">>, f4 |-> <<>>]
-Required   == [f1 |-> <<"a">>,      f2 |-> <<"items", "m">>, f3 |-> <<>>,              f4 |-> <<>>]
-DocRaises  == [f1 |-> <<2002>>,     f2 |-> <<>>,             f3 |-> <<2001>>,          f4 |-> <<>>]
-ResultKind == [f1 |-> "model",      f2 |-> "list",           f3 |-> "null",            f4 |-> "any"]   \* the return annotation
-HasDoc     == [f1 |-> TRUE,         f2 |-> FALSE,            f3 |-> TRUE,              f4 |-> FALSE]   \* the function has a docstring
+\* f5 raises (per its docstring) an error class that may come into being only after the first generation (plan "grow")
+ParamNames == [f1 |-> <<"a", "b">>, f2 |-> <<"items", "m">>, f3 |-> <<"flag", "opt">>, f4 |-> <<>>,    f5 |-> <<>>]
+Required   == [f1 |-> <<"a">>,      f2 |-> <<"items", "m">>, f3 |-> <<>>,              f4 |-> <<>>,    f5 |-> <<>>]
+DocRaises  == [f1 |-> <<2002>>,     f2 |-> <<>>,             f3 |-> <<2001>>,          f4 |-> <<>>,    f5 |-> <<2003>>]
+ResultKind == [f1 |-> "model",      f2 |-> "list",           f3 |-> "null",            f4 |-> "any",   f5 |-> "any"]   \* the return annotation
+HasDoc     == [f1 |-> TRUE,         f2 |-> FALSE,            f3 |-> TRUE,              f4 |-> FALSE,   f5 |-> TRUE]    \* the function has a docstring
 
 ReadsDocstrings == scn.extractor \in {"doc", "doc+pyd"}
 RendersErrors   == scn.kind = "openrpc" \/ scn.extractor # "base"      \* the base extractor produces no response schemas at all
@@ -69,7 +71,10 @@ MetaVerdict(e) == IF \E j \in DOMAIN scn.methods : /\ scn.methods[j].fn = e.fn /
                                                    /\ FacetsAllowed(e.meta, scn.methods[j])
                   THEN "ok" ELSE "foreign"
 \* the registry handed to generation g
-Sub(g) == IF scn.plan = "shrink" /\ g = 2 THEN {1} ELSE DOMAIN scn.methods
+\* plan "grow": the last method (and whatever it refers to) is defined and registered only after the first generation
+Sub(g) == IF scn.plan = "shrink" /\ g = 2 THEN {1}
+          ELSE IF scn.plan = "grow" /\ g = 1 THEN DOMAIN scn.methods \ {Len(scn.methods)}
+          ELSE DOMAIN scn.methods
 DocOfSub(h, J) == {EntryOf(j, h) : j \in {i \in J : Documented(i)}}
 DocOf(h) == DocOfSub(h, DOMAIN scn.methods)
 
